@@ -249,6 +249,15 @@ def ev(node, env):
             return len(args[0])
         if node.func.id == 'bool' and len(args) == 1:
             return bool(args[0])
+        if node.func.id == 'str' and len(args) == 1 and not node.keywords and isinstance(args[0], (int, str)) and not isinstance(args[0], bool):
+            return str(args[0])          # decimal text of the interpreter's own integers
+        if node.func.id == 'int' and len(args) == 1 and not node.keywords and isinstance(args[0], (int, str)) and not isinstance(args[0], bool):
+            if isinstance(args[0], str):
+                t_ = args[0].strip()
+                if not (t_.lstrip('+-').isdigit() and len(t_) < 400):
+                    raise PyRaise('ValueError')
+                return int(t_)
+            return int(args[0])
         if node.func.id in ('sorted', 'list', 'tuple', 'reversed') and len(args) == 1 and not node.keywords and isinstance(args[0], (list, tuple, dict, set, frozenset, range)):
             # containers of the interpreter's own values (class-/module-level literal tables)
             items = list(args[0])
@@ -303,6 +312,16 @@ def ev(node, env):
             except (IndexError, KeyError, ValueError):
                 raise Unsupported('format')
         raise Unsupported('format of %r' % (a_,))
+    if isinstance(node, ast.Call) and isinstance(node.func, ast.Attribute) and node.func.attr in ('split', 'join') and not node.keywords and len(node.args) == 1:
+        b = ev(node.func.value, env)
+        a0 = ev(node.args[0], env)
+        if node.func.attr == 'split' and isinstance(b, str) and isinstance(a0, str) and a0:
+            return b.split(a0)
+        if node.func.attr == 'join' and isinstance(b, str) and isinstance(a0, (list, tuple)) and all(isinstance(x, str) for x in a0):
+            return b.join(a0)
+        if node.func.attr == 'join' and isinstance(b, (bytes, bytearray)) and isinstance(a0, (list, tuple)) and all(isinstance(x, (bytes, bytearray)) for x in a0):
+            return b.join(a0)
+        raise Unsupported('%s of %s' % (node.func.attr, type(b).__name__))
     if isinstance(node, ast.Call) and isinstance(node.func, ast.Attribute) and node.func.attr in ('rstrip', 'lstrip', 'strip') and not node.keywords and len(node.args) <= 1:
         b = ev(node.func.value, env)
         a_ = [ev(x, env) for x in node.args]
